@@ -853,6 +853,19 @@ Theorem TB_overwrite_const_key_refuted :
 Proof. exact overwrite_const_key_refuted. Qed.
 Print Assumptions TB_overwrite_const_key_refuted.
 
+(** (1') A REPLACEMENT whose key is a constant — what cJSON_Duplicate returns for a patch member added with
+    cJSON_AddItemToObjectCS(patch, "value", v): the duplicate keeps the caller's block and the flag — violates
+    [key_owned dx]: overwrite_item is fine, the final cJSON_free(object->string) of apply_patch releases the
+    caller's block ([ForeignFree]; in C: free() of a string literal) *)
+Theorem TB_overwrite_const_replacement_refuted :
+  WF owk_heap owk_F /\ find_root 1%positive owk_F = Some (ow_num 1 1 None) /\
+  find_root 10%positive owk_F = Some (T 10 owk_dx []) /\ key_owned (tdata (ow_num 1 1 None)) /\
+  is_const owk_dx = true /\ rd_key owk_dx = Some 110%positive /\ ~ key_owned owk_dx /\
+  h_own owk_heap !! 110%positive = Some Foreign /\ 110%positive ∈ h_live owk_heap /\
+  patch_root_overwrite (Some 1%positive) (Some 10%positive) owk_heap = Err ForeignFree.
+Proof. exact overwrite_const_replacement_refuted. Qed.
+Print Assumptions TB_overwrite_const_replacement_refuted.
+
 (** (2) A "root" that has siblings — member 2 ("a") of the object 1 of [ex_heap] (members 2 3 4), as in
     cJSONUtils_ApplyPatches(cJSON_GetObjectItem(big, "a"), patches): the call returns normally, but the memcpy
     has overwritten next/prev with the replacement's NULL links: the member has no next, the object has ONE
